@@ -300,6 +300,89 @@ def overdue_deadline_and_event(ck, seed, di, ei):
     ck.count('overdue.turns_came_back')
 
 
+def multi_homed_stray_request(ck, seed, i, judge=True):
+    """A daemon that listens on TWO local addresses and has a connection with a peer on one of them. A stray / forged IKE_SA_INIT request carrying that peer's address
+    reaches the OTHER local address first (several times). Nothing it leaves behind may keep the peer's real handshake, to the right address, from being served - now
+    and after further stray requests. Returns the sim (C20 scans what was logged)."""
+    from vf.ref import party as party_
+    GW2 = '192.0.2.20'
+    rng = ck.rng('stray', i)
+    ca, cb = S.pair_conf(dpd=600, lifetime=3600)
+    sim = S.Sim(seed)
+    a = sim.add('A', [S.A4], ca)
+    g = sim.add('G', [S.B4, GW2], cb)
+    sim.case = {'family': 'multi-homed-stray-request', 'i': i}
+    died = []
+    sim.monitors.append(lambda s_, ep, rec: died.append(rec) if (rec.died and ep is g) else None)
+    trs = [{'type': 1, 'id': 12, 'keylen': 256}, {'type': 3, 'id': 12, 'keylen': None}, {'type': 2, 'id': 5, 'keylen': None}, {'type': 4, 'id': 19, 'keylen': None}]
+    n_stray = 1 + i % 3
+    for _ in range(n_stray):
+        sim.inject(g, S.A4, GW2, party_.RefParty(S.A4, GW2, rng).init_request(trs, 19))
+        sim.net.clear()
+    if i % 2:
+        sim.inject(g, '198.51.100.9', S.B4, party_.RefParty('198.51.100.9', S.B4, rng).init_request(trs, 19))       # and one from a host nobody knows, to the right address
+        sim.net.clear()
+    sim.acquire(a, 0, sport=6000 + i % 50)
+    sim.drain()
+    if not judge:
+        return sim
+    ck.count('stray.runs')
+    ck.nontrivial(('multi-homed-stray', n_stray, i % 2))
+    ok = any(x.state == State.ESTABLISHED and x.child_sas for x in a.ctl.ike_sas) and any(x.state == State.ESTABLISHED and str(x.my_addr) == S.B4 for x in g.ctl.ike_sas)
+    if died:
+        ck.violation(f'loop-terminated-or-spinning:{type(died[0].exc).__name__}:stray-request-to-the-other-local-address', {'exc': repr(died[0].exc)[:200]}, sim.case)
+    elif not ok:
+        ck.violation('configured-peer-not-served-after-a-stray-request-with-its-address-reached-the-other-local-address',
+                     {'stray_requests': n_stray, 'peer': [x.state.name for x in a.ctl.ike_sas], 'gateway': [(x.state.name, str(x.my_addr)) for x in g.ctl.ike_sas]}, sim.case)
+    else:
+        ck.count('stray.configured_peer_served')
+    return sim
+
+
+def two_give_ups_in_one_turn(ck, seed, i):
+    """A hub with THREE peers: its requests towards the first two (or the last two, or the outer two) go unanswered from the same instant, so both IKE_SAs are given up in
+    the SAME loop turn; the third peer is alive. After that turn the hub still holds the third peer's IKE_SA - and only that one - and serves it."""
+    sim, hub, peers = S.make_star(seed, peers=3, dpd=600, lifetime=3600)
+    sim.case = {'family': 'two-give-ups-in-one-turn', 'i': i}
+    died = []
+    sim.monitors.append(lambda s_, ep, rec: died.append(rec) if (rec.died and ep is hub) else None)
+    order = [(0, 1, 2), (2, 1, 0), (1, 0, 2), (0, 2, 1)][i % 4]
+    for k in order:
+        sim.acquire(peers[k], 0, sport=6100 + k)
+        sim.drain()
+    if sum(1 for x in hub.ctl.ike_sas if x.state == State.ESTABLISHED) != 3:
+        ck.count('two_give_ups.setup_failed')
+        return
+    dead = [(0, 1), (1, 2), (0, 2)][(i // 4) % 3]          # positions in the hub's table
+    live_sa = next(x for j, x in enumerate(hub.ctl.ike_sas) if j not in dead)
+    live_ep = next(p_ for p_ in peers if str(p_.addrs[0]) == str(live_sa.peer_addr))
+    dead_addrs = {str(hub.ctl.ike_sas[j].peer_addr) for j in dead}
+    for j in dead:
+        hub.ctl.ike_sas[j].start_dpd_at = sim.clock.t - 1
+    hub.step('tick')
+    for _ in range(40):
+        sim.net[:] = [d for d in sim.net if d.dst not in dead_addrs and d.src not in dead_addrs]
+        sim.drain()
+        sim.tick_all(1.0)
+        if died or not any(str(x.peer_addr) in dead_addrs for x in hub.ctl.ike_sas):
+            break
+    ck.count('two_give_ups.runs')
+    ck.nontrivial(('two-give-ups', order, dead))
+    left = [(x.state.name, str(x.peer_addr)) for x in hub.ctl.ike_sas]
+    if died:
+        ck.violation(f'loop-terminated-or-spinning:{type(died[0].exc).__name__}:two-ike-sas-given-up-in-one-turn', {'exc': repr(died[0].exc)[:200]}, sim.case)
+        return
+    if live_sa not in hub.ctl.ike_sas or any(a_ in dead_addrs for _s, a_ in left):
+        ck.violation('ike-sa-of-a-live-peer-removed-or-a-dead-one-kept-when-two-ike-sas-were-given-up-in-one-turn', {'table_afterwards': left, 'positions_given_up': dead}, sim.case)
+        return
+    sim.acquire(live_ep, 0, sport=6200 + i % 50)
+    sim.drain()
+    if len(live_sa.child_sas) >= 2 and live_sa.state == State.ESTABLISHED:
+        ck.count('two_give_ups.live_peer_served')
+    else:
+        ck.violation('other-peer-not-served:after-two-ike-sas-were-given-up-in-one-turn', {'table': left}, sim.case)
+
+
 def run(ck):
     mon = linemon.LineMon()
     mon.start()
@@ -862,6 +945,15 @@ def run(ck):
                 n += 1
                 if ck.mine(n):
                     queued_local_events(ck, base + 4100 + 97 * rep + n, si, ei)
+    # ---- a busier daemon: several local addresses, three peers
+    for i in range(12 if not ck.thorough() else 240):
+        n += 1
+        if ck.mine(n):
+            multi_homed_stray_request(ck, base + 6300 + i, i)
+    for i in range(12 if not ck.thorough() else 240):
+        n += 1
+        if ck.mine(n):
+            two_give_ups_in_one_turn(ck, base + 6400 + i, i)
     # ---- a deadline is overdue and the turn is woken by an event instead of the clock
     for rep in range(1 if not ck.thorough() else 12):
         for di in range(len(OVERDUE)):
@@ -1123,6 +1215,8 @@ def verdict(ck):
     ck.floor('kernel events queued while a request of the daemon was in flight (state x events)', len(ck.sets['queued_events.state_x_events']), 24)
     ck.floor('... after which a probe of the peer was answered', c['queued_events.peer_probe_answered_afterwards'], 20)
     ck.floor('turns woken by an event while a deadline was overdue (deadline x event)', len(ck.sets['overdue.kinds']), 30)
+    ck.floor('multi-homed daemon: configured peer served after stray requests with its address reached the other local address', c['stray.configured_peer_served'], 8)
+    ck.floor('hub with three peers: two IKE_SAs given up in one turn, the live peer still served', c['two_give_ups.live_peer_served'], 8)
     ck.floor('IKE_AUTH requests with unusual identities after which the other peer was served', c['unusual_identity.other_peer_served'], 80)
     ck.floor('histories cut at a delivery after which the other peer was still probed on time', c['vanish.other_peer_probed_on_time'], 80)
     ck.floor('states in which the vanished peer left its IKE_SAs at the hub', len(ck.sets['vanish.states_of_the_vanished_peers_ike_sas']), 5)
